@@ -13,7 +13,7 @@ EXPLANATION = (
     "R9.4 external subcommands: values stored verbatim (to_os_string of RawArgs::remaining items) and the parse returns "
     "right after. R9.5 short flag-subcommand resume: parse_short_arg reads flag_subcmd_skip once, resets it to 0 and then "
     "advances the cluster by that amount; the parent records flag_subcmd_skip only together with the backward seek. "
-    "R9.6 (shared with C08) the recognisers behind find_subcommand / find_short_subcmd / find_long_subcmd answer to the primary name or flag or ANY alias on every path. R9.7 parse_long_arg checks for a long flag-subcommand before the positional allow_hyphen_values fallback. NOT decided: agreement of values at every level for all trees (needs execution)."
+    "R9.6 (shared with C08) the recognisers behind find_subcommand / find_short_subcmd / find_long_subcmd answer to the primary name or flag or ANY alias on every path. R9.7 parse_long_arg checks for a long flag-subcommand before the positional allow_hyphen_values fallback. R9.5b the remembered flag-subcommand position does not outlive its cluster: parse_short_arg clears flag_subcmd_at when it starts a cluster it is not resuming (skip == 0), before walking the flags — otherwise a later flag subcommand computes its resume offset from a stale position. R9.5c the resume offset covers the whole cluster: the position it is counted from is fixed before the first flag of the cluster is processed, not when the flag subcommand is met (flags in front of it, as in `-vSyu`, must be skipped by the sub-parser too). NOT decided: agreement of values at every level for all trees (needs execution)."
 )
 TRUSTED = ["rustc MIR", "clapfacts"]
 ASSUMPTIONS = ["FlatMap::insert replaces an existing entry"]
@@ -174,3 +174,24 @@ def run(ctx):
         res.check(any(re.match(r"^!V1:possible_long_flag_subcommand\(", g) for g in guard_strs(pl, i)), "R9.7", "flag-subcommand-before-positional-hyphen", "%s bb%d" % (pl.where(), i),
                   "the positional hyphen-value fallback applies only when the token is no long flag-subcommand",
                   "parse_long_arg hands `--name` to a hyphen-accepting positional before checking whether it is a long flag-subcommand: the subcommand named on argv is not dispatched to")
+
+    # ---- R9.5b flag_subcmd_at is cleared at the start of a non-resumed cluster
+    wat = [(i, s_) for i, s_ in writes_field(ps, "flag_subcmd_at") if (s_["rv"]["k"] == "agg" and s_["rv"].get("variant") == "None") or "None" in (agg_variants(ps, s_["rv"]["op"]) if s_["rv"]["k"] == "use" else [])]
+    nfs = ps.calls_to(r"ShortFlags::next_flag$")
+    res.floor("R9.5", "next_flag loop in parse_short_arg", len(nfs), 1)
+    okc = False
+    for i, s_ in wat:
+        fresh = any(re.match(r"^T:Eq\((skip|self\.flag_subcmd_skip),0\)$|^T:eq\((skip|self\.flag_subcmd_skip),0\)$", g) for g in guard_strs(ps, i)) or any(o == "Eq" and {a, b_} == {"self.flag_subcmd_skip", "0"} or o == "Eq" and {a, b_} == {"skip", "0"} for (o, a, b_) in cmp_facts(ps, i))
+        if fresh and nfs and not ps.reaches(nfs[0].bb, i):
+            okc = True
+    res.check(okc, "R9.5", "flag_subcmd_at-cleared-per-cluster", ps.where(), "flag_subcmd_at := None when a cluster is started fresh (skip == 0)",
+              "parse_short_arg never clears flag_subcmd_at when it starts a new cluster: after `-Sy`, a flag subcommand in a later cluster (`-Rp`) computes its resume offset from the position remembered for the first cluster; the sub-parser then skips past the end of `-Rp` (debug assertion `tracking of flag_subcmd_skip is off` fails, release builds drop `-p`)")
+
+    # ---- R9.5c the resume offset is counted from the start of the cluster
+    est = [c for c in ps.calls_to(r"Option::get_or_insert$") if re.search(r"flag_subcmd_at$", expr(ps, c.args[0]))]
+    est_w = [(i, s_) for i, s_ in writes_field(ps, "flag_subcmd_at") if s_["rv"]["k"] == "agg" and s_["rv"].get("variant") == "Some"]
+    starts = [i for i, s_ in est_w if nfs and not ps.reaches(nfs[0].bb, i)]
+    late = [c for c in est if any(re.match(r"^V1:find_short_subcmd\(", g) for g in guard_strs(ps, c.bb))]
+    if est or est_w:
+        res.check(bool(starts) and not (late and not starts), "R9.5", "resume-offset-counts-whole-cluster", (late[0].where() if late else ps.where()),
+                  "the reference position is fixed before the cluster's first flag", "the position the resume offset is counted from is recorded only when the flag subcommand is met (get_or_insert in the find_short_subcmd arm): flags that precede it in the same cluster are not skipped by the sub-parser — `-vSyu` is rejected while `-v -Syu` parses")
